@@ -42,7 +42,7 @@ def msgpack_correspondence(outcome, tier, seed, oracle=True):
     outcome.distinct_nontrivial += st["nontrivial"]
     outcome.extra["msgpack_correspondence"] = {
         "model_queries": st["cases"], "input_kinds": st["kinds"], "verdicts": st["verdicts"],
-        "bound": "every byte string of length <= %d over a 27-byte marker alphabet; all 256 markers x 11 filler lengths; "
+        "bound": "every byte string of length <= %d over a 30-byte alphabet (markers of every class, plus the bytes 0x0a 0x0d 0x20 that a text tool would call whitespace); all 256 markers x 11 filler lengths; "
                  "seeded random well-formed values with truncations/mutations; nesting windows around 1024 in 7 shapes x 6 "
                  "innermost values; each input: next_value_size at limits 1024/1/2/3, both document loops with writer "
                  "bytes, and the detection trial" % st["exhaustive_len"],
